@@ -2,7 +2,7 @@
 import random, itertools
 import numpy as np
 from . import common
-from .spectrum_common import enc, observe, rand_spectrum, rand_shape, rand_labels, mutate
+from .spectrum_common import enc, observe, rand_spectrum, rand_shape, rand_labels, mutate, relayout
 
 PROP = 'C10'
 
@@ -26,6 +26,8 @@ def records(ctx):
         labels = rng.sample(['YRI', 'CEU', 'CHB', 'pop4', 'p5', 'six'], ndim) if k % 2 == 0 else None
         # bookkeeping on spectra without internal masks (the statement's "unmasked data"); corners masked or not
         fs = rand_spectrum(rng, sh, folded=folded, labels=labels, mask_mode=['none', 'corners'][(k // 2) % 2])
+        if k % 3 == 2:      # the same abstract spectrum in a non-contiguous memory layout (what reorder_pops / transposes return)
+            fs = relayout(fs, rot=(k // 3) % 3)
         P = ndim
         over = sorted(rng.sample(range(P), rng.randint(1, P - 1)))
         over_arg = list(over)
